@@ -14,7 +14,7 @@ Record QF (s s' : core) : Prop := {
   qf_kern : kern s' = kern s; qf_fdt : fdt s' = fdt s; qf_trace : trace s' = trace s;
   qf_tfd : tfd s' = tfd s; qf_method : method s' = method s; qf_la : last_abs s' = last_abs s;
   qf_lac : last_abs_count s' = last_abs_count s;
-  qf_rw : rw_reg s' = rw_reg s; qf_rf : rw_rfd s' = rw_rfd s; qf_er : efd_raw s' = efd_raw s;
+  qf_rw : rw_reg s' = rw_reg s; qf_rf : rw_rfd s' = rw_rfd s; qf_wf : rw_wfd s' = rw_wfd s; qf_er : efd_raw s' = efd_raw s;
   qf_evp : ev_pending s' = ev_pending s; qf_time : time s' = time s; qf_tv : time_valid s' = time_valid s;
   qf_hd : handled s' = handled s \/ True; qf_ac : active s' = active s \/ True }.
 
@@ -67,14 +67,14 @@ Qed.
 
 (* a raw-event handler that ran no callback: nothing to read, or the internal event with nothing pending *)
 Definition RawQuiet (s : core) (j : Z) : Prop :=
-  match k_read (kern s) (rw_rfd s j) (if efd_raw s =? 0 then 1024 else 8) with
+  match k_read (kern s) (rw_rfd s j) (if raw_is_pipe s j then 1024 else 8) with
   | (_, inl n) => n <> 0 /\ j = KICK_RAW /\ ev_pending s = []
   | (k1, inr EAGAIN) => True
   | _ => False
   end.
 
 Lemma raw_got_event_q : forall s j s', raw_got_event sc s j = R s' -> Q s' ->
-  RawQuiet s j /\ QFH (set_kern s (fst (k_read (kern s) (rw_rfd s j) (if efd_raw s =? 0 then 1024 else 8)))) s'.
+  RawQuiet s j /\ QFH (set_kern s (fst (k_read (kern s) (rw_rfd s j) (if raw_is_pipe s j then 1024 else 8)))) s'.
 Proof.
   intros s j s' E H. unfold raw_got_event in E. cbv zeta in E. unfold RawQuiet.
   destruct (k_read (kern s) (rw_rfd s j) _) as [k1 [n|e]]; cbn [fst].
@@ -91,21 +91,21 @@ Proof.
   repeat match goal with |- context [match ?x with _ => _ end] => destruct x end; intros E; inversion E; reflexivity.
 Qed.
 
-Definition toread (s : core) : Z := if efd_raw s =? 0 then 1024 else 8.
+Definition toread (s : core) (j : Z) : Z := if raw_is_pipe s j then 1024 else 8.
 
 (* the internal raw event has nothing to read *)
 Definition KickDry (s : core) : Prop :=
-  rw_reg s KICK_RAW = true -> forall kx n, k_read (kern s) (rw_rfd s KICK_RAW) (toread s) <> (kx, inl n).
+  rw_reg s KICK_RAW = true -> forall kx n, k_read (kern s) (rw_rfd s KICK_RAW) (toread s KICK_RAW) <> (kx, inl n).
 
-Definition Dry (s : core) (j : Z) : Prop := snd (k_read (kern s) (rw_rfd s j) (toread s)) = inr EAGAIN.
+Definition Dry (s : core) (j : Z) : Prop := snd (k_read (kern s) (rw_rfd s j) (toread s j)) = inr EAGAIN.
 
 Lemma KickDry_QF : forall s s', QF s s' -> KickDry s -> KickDry s'.
-Proof. intros s s' F K R kx n. unfold toread. rewrite (qf_kern _ _ F), (qf_rf _ _ F), (qf_er _ _ F). apply K. rewrite <- (qf_rw _ _ F). exact R. Qed.
+Proof. intros s s' F K R kx n. unfold toread, raw_is_pipe. rewrite (qf_kern _ _ F), (qf_rf _ _ F), (qf_wf _ _ F). apply K. rewrite <- (qf_rw _ _ F). exact R. Qed.
 
 Lemma raw_got_event_q2 : forall s j s', KickDry s -> rw_reg s j = true -> raw_got_event sc s j = R s' -> Q s' -> Dry s j /\ QFH s s'.
 Proof.
   intros s j s' KD RJ E H. destruct (raw_got_event_q s j s' E H) as [RQ F]. unfold RawQuiet, Dry, toread in *.
-  destruct (k_read (kern s) (rw_rfd s j) (if efd_raw s =? 0 then 1024 else 8)) as [k1 [n|e]] eqn:RD; cbn [fst snd] in *.
+  destruct (k_read (kern s) (rw_rfd s j) (if raw_is_pipe s j then 1024 else 8)) as [k1 [n|e]] eqn:RD; cbn [fst snd] in *.
   - exfalso. destruct RQ as (_ & EJ & _). subst j. exact (KD RJ k1 n RD).
   - destruct e; try contradiction. split; [reflexivity|]. apply k_read_eagain in RD. subst k1.
     eapply QFH_trans; [|exact F]. split; [constructor; auto|split; reflexivity].
@@ -127,7 +127,7 @@ Definition NoFire (s : core) (k : Z) : Prop :=
   1000 <= hid /\ Dry s (hid - 1000).
 
 Lemma Dry_QF : forall s s' j, QF s s' -> Dry s' j -> Dry s j.
-Proof. intros s s' j F D. unfold Dry, toread in *. rewrite (qf_kern _ _ F), (qf_rf _ _ F), (qf_er _ _ F) in D. exact D. Qed.
+Proof. intros s s' j F D. unfold Dry, toread, raw_is_pipe in *. rewrite (qf_kern _ _ F), (qf_rf _ _ F), (qf_wf _ _ F) in D. exact D. Qed.
 
 Lemma NoFire_QF : forall s s' k, QF s s' -> NoFire s' k -> NoFire s k.
 Proof.
